@@ -1,6 +1,7 @@
 package rules
 
 import (
+	"go/constant"
 	"fmt"
 	"go/ast"
 	"go/token"
@@ -28,10 +29,18 @@ func C04(r *core.Report) {
 	c04Determinism(r)
 	c04Loud(r)
 	c12InvariantsFrom(r, "C04.R1", "c04_invariants.json")
+	for _, pk := range c04Pkgs {
+		if f := r.Anchor("C04.R5", pk+".(*DB).Lookup"); f != nil {
+			checkReentrant(r, "C04.R5", f, "lookups")
+		}
+	}
 	r.Floor("C04.R1", 20)
 	r.Floor("C04.R2", 8)
 	r.Floor("C04.R3", 3)
 	r.Floor("C04.R4", 15)
+	r.Floor("C04.R5", 9)
+	c04ReaderCapsCoverWriter(r)
+	r.Floor("C04.R6", 2)
 }
 
 func c04Funcs(p *core.Prog) []*core.Func {
@@ -623,4 +632,202 @@ func constOrLocalConst(f *core.Func, e ast.Expr) (int64, bool) {
 		return true
 	})
 	return val, n == 1 && okAll
+}
+
+// c04ReaderCapsCoverWriter (C04.R6): the cap the reader puts on the header length read from the file must not be smaller
+// than the largest header the builder can write, otherwise an index that was built and sealed without error cannot be
+// opened. The writer's maximum is derived from the code: the fixed fields written by Header.Bytes (sizes of the
+// binary.Write operands and WriteByte calls) plus the largest metadata block Meta.MarshalBinary accepts (its own
+// byte-count writes and the Max* constants that guard each variable-length write).
+func c04ReaderCapsCoverWriter(r *core.Report) {
+	const rule = "C04.R6"
+	p := r.Prog
+	mb := r.Anchor(rule, "indexmeta.(Meta).MarshalBinary")
+	hb := r.Anchor(rule, "compactindexsized.(*Header).Bytes")
+	open := r.Anchor(rule, "compactindexsized.Open")
+	if mb == nil || hb == nil || open == nil {
+		return
+	}
+	constVal := func(pkg, name string) (int64, bool) {
+		v, _ := constOf(p, pkg, name)
+		if v == nil {
+			return 0, false
+		}
+		return constant.Int64Val(v)
+	}
+	maxKVs, ok1 := constVal("indexmeta", "MaxNumKVs")
+	if !ok1 {
+		r.Undecided(rule, "indexmeta.MaxNumKVs", "", "constant not found")
+		return
+	}
+	// --- metadata maximum
+	minfo := mb.Pkg.TypesInfo
+	var outside, insideFixed, insideVar int64
+	undecided := ""
+	var walk func(n ast.Node, inLoop bool)
+	guardMax := func(arg ast.Expr) (int64, bool) {
+		// Write(kv.Key): find the guard `len(kv.Key) > MaxX` / `keyLen > MaxX` in the function; the constant compared with
+		// the length of this very expression
+		want := core.ExprStr(arg)
+		var found int64 = -1
+		ast.Inspect(mb.Body, func(m ast.Node) bool {
+			be, ok := m.(*ast.BinaryExpr)
+			if !ok || be.Op != token.GTR {
+				return true
+			}
+			tv, ok := minfo.Types[be.Y]
+			if !ok || tv.Value == nil {
+				return true
+			}
+			lhs := core.Unparen(be.X)
+			matches := false
+			if c, ok := lhs.(*ast.CallExpr); ok && core.BuiltinName(minfo, c) == "len" && core.ExprStr(c.Args[0]) == want {
+				matches = true
+			}
+			if id, ok := lhs.(*ast.Ident); ok {
+				if o := minfo.Uses[id]; o != nil {
+					if d := singleDef(mb, o); d != nil {
+						if c, ok := core.Unparen(d).(*ast.CallExpr); ok && core.BuiltinName(minfo, c) == "len" && core.ExprStr(c.Args[0]) == want {
+							matches = true
+						}
+					}
+				}
+			}
+			if matches {
+				if v, ok := constant.Int64Val(tv.Value); ok {
+					found = v
+				}
+			}
+			return true
+		})
+		return found, found >= 0
+	}
+	walk = func(n ast.Node, inLoop bool) {
+		ast.Inspect(n, func(m ast.Node) bool {
+			switch x := m.(type) {
+			case *ast.RangeStmt:
+				if x != n {
+					walk(x.Body, true)
+					return false
+				}
+			case *ast.ForStmt:
+				if x != n {
+					walk(x.Body, true)
+					return false
+				}
+			case *ast.CallExpr:
+				nm := core.CalleeName(minfo, x)
+				switch nm {
+				case "bytes.(*Buffer).WriteByte":
+					if inLoop {
+						insideFixed++
+					} else {
+						outside++
+					}
+				case "bytes.(*Buffer).Write", "bytes.(*Buffer).WriteString":
+					if v, ok := guardMax(x.Args[0]); ok {
+						if inLoop {
+							insideVar += v
+						} else {
+							outside += v
+						}
+					} else {
+						undecided = "no upper bound found for " + core.ExprStr(x.Args[0])
+					}
+				}
+			}
+			return true
+		})
+	}
+	walk(mb.Body, false)
+	if undecided != "" {
+		r.Undecided(rule, mb.Key+"#max-size", posP(r, mb.Pos()), undecided)
+		return
+	}
+	metaMax := outside + maxKVs*(insideFixed+insideVar)
+	r.OK(rule, mb.Key+"#max-size", posP(r, mb.Pos()), fmt.Sprintf("largest metadata block: %d + %d*(%d + %d) = %d bytes", outside, maxKVs, insideFixed, insideVar, metaMax))
+	// --- fixed part of the header (the buffer whose Len() becomes the length field)
+	hinfo := hb.Pkg.TypesInfo
+	var lenBuf types.Object
+	ast.Inspect(hb.Body, func(m ast.Node) bool {
+		if c, ok := m.(*ast.CallExpr); ok && core.CalleeName(hinfo, c) == "encoding/binary.Write" && len(c.Args) == 3 {
+			if conv, ok := core.Unparen(c.Args[2]).(*ast.CallExpr); ok && len(conv.Args) == 1 {
+				if o := core.ObjOf(hinfo, conv.Args[0]); o != nil {
+					if d := singleDef(hb, o); d != nil {
+						if lc, ok := core.Unparen(d).(*ast.CallExpr); ok && strings.HasSuffix(core.CalleeName(hinfo, lc), "Buffer).Len") {
+							if sel, ok := core.Unparen(lc.Fun).(*ast.SelectorExpr); ok {
+								lenBuf = core.ObjOf(hinfo, sel.X)
+							}
+						}
+					}
+				}
+			}
+		}
+		return true
+	})
+	if lenBuf == nil {
+		r.Undecided(rule, hb.Key+"#length-field", posP(r, hb.Pos()), "the buffer whose length is written as the header length was not identified")
+		return
+	}
+	var fixed int64
+	meta := false
+	sizes := types.SizesFor("gc", "amd64")
+	for _, c := range core.CallsIn(hb.Body, false) {
+		nm := core.CalleeName(hinfo, c)
+		switch {
+		case nm == "encoding/binary.Write" && len(c.Args) == 3 && core.ObjOf(hinfo, c.Args[0]) == lenBuf:
+			fixed += sizes.Sizeof(hinfo.TypeOf(c.Args[2]))
+		case nm == "bytes.(*Buffer).WriteByte":
+			if sel, ok := core.Unparen(c.Fun).(*ast.SelectorExpr); ok && core.ObjOf(hinfo, sel.X) == lenBuf {
+				fixed++
+			}
+		case nm == "bytes.(*Buffer).Write":
+			if sel, ok := core.Unparen(c.Fun).(*ast.SelectorExpr); ok && core.ObjOf(hinfo, sel.X) == lenBuf {
+				// the metadata block
+				if o := core.ObjOf(hinfo, c.Args[0]); o != nil {
+					if d := singleDef(hb, o); d != nil {
+						if dc, ok := core.Unparen(d).(*ast.CallExpr); ok && strings.HasSuffix(core.CalleeName(hinfo, dc), "Meta).Bytes") {
+							meta = true
+						}
+					}
+				}
+			}
+		}
+	}
+	if !meta {
+		r.Undecided(rule, hb.Key+"#metadata-write", posP(r, hb.Pos()), "the write of the metadata block into the header was not recognised")
+		return
+	}
+	writerMax := fixed + metaMax
+	// --- the reader's cap: the constant compared (>) with the size read from the file in Open
+	oinfo := open.Pkg.TypesInfo
+	var capV int64 = -1
+	var capPos ast.Node
+	g := p.Graph(open)
+	for _, e := range g.Nodes {
+		if e.Kind != core.KEdge || !e.Truth || e.Ast == nil {
+			continue
+		}
+		be, ok := e.Ast.(*ast.BinaryExpr)
+		if !ok || (be.Op != token.GTR && be.Op != token.GEQ) {
+			continue
+		}
+		tv, ok := oinfo.Types[be.Y]
+		if !ok || tv.Value == nil || !strings.Contains(strings.ToLower(core.ExprStr(be.X)), "size") {
+			continue
+		}
+		if v, ok := constant.Int64Val(tv.Value); ok {
+			capV, capPos = v, be
+			if be.Op == token.GEQ {
+				capV--
+			}
+		}
+	}
+	if capV < 0 {
+		r.OK(rule, open.Key+"#header-cap", posP(r, open.Pos()), "Open puts no cap on the header length")
+		return
+	}
+	r.Check(capV >= writerMax, rule, open.Key+"#header-cap>=writer-max", pos(r, capPos),
+		fmt.Sprintf("Open accepts header lengths up to %d, the builder writes at most %d", capV, writerMax),
+		fmt.Sprintf("Open rejects header lengths above %d but the builder can write %d bytes (fixed %d + metadata %d): an index sealed without error with large metadata cannot be opened", capV, writerMax, fixed, metaMax))
 }
